@@ -14,10 +14,11 @@
 //!  (3) tie: `c17.run … Z<label>:<raw entries>` (the model lists the archive with
 //!      `Producer.zipListed`) answers the same items; `c17.canon` against the verbatim std copy of
 //!      `canonical_entry_name` below.
-//! Named finding C17-zip-same-canonical-name-reads-other-entry: matcher = the archive's index has
-//! two entries (directory entries included) with one canonical spelling AND the model's listing
-//! `zipListed` differs from the reference `zipFirst` on this archive AND the implementation's items
-//! are exactly the model's (so the only deviation from (1) is which of those entries is read).
+//! corpus/C17/*.json (op `rawzip`) are replayed first: the witnesses of the repaired finding
+//! C17-zip-same-canonical-name-reads-other-entry (`zip_index` read another entry than `explore`
+//! listed when two entries, directory entries included, shared a canonical spelling; /repo 99c0f28).
+//! Since that fix the reference (1) holds without exception; `c17.ziplist` = `c17.zipfirst` is asked
+//! of the model on every archive (`C17_zip_entries_exact`).
 use super::rawzipw::{write_raw_zip, RawEnt};
 use super::*;
 use std::path::Component;
@@ -343,13 +344,6 @@ fn fixed() -> Vec<(&'static str, RCase)> {
     vec![
         // review item 8 (tools/review_probes2/prod-conf/p1_zipnames.py): silently unused before 2f541c3
         ("respelled-used", mk(vec![e("d//b.info", info("b.c", 1)), e("d/./e.info", info("e.c", 2)), e("./a.info", info("a.c", 3)), e("c.info", info("ctl.c", 9))])),
-        // two spellings of one canonical name: the first is listed, the second is read
-        ("respelled-then-canonical", mk(vec![e("a//b.info", info("first.c", 1)), e("a/b.info", info("second.c", 2))])),
-        ("canonical-then-respelled", mk(vec![e("a/b.info", info("first.c", 1)), e("a//b.info", info("second.c", 2))])),
-        // a directory entry named like the file: its (empty) data are read
-        ("dir-entry-then-file", mk(vec![("x.info/".to_string(), vec![], Some(0o40755)), e("./x.info", info("real.c", 3)), e("c.info", info("ctl.c", 9))])),
-        ("valid-then-decoy-same-name", mk(vec![e("a//b.info", info("first.c", 1)), e("a/b.info", b"XX decoy".to_vec()), e("c.info", info("ctl.c", 9))])),
-        ("decoy-then-valid-same-name", mk(vec![e("a//b.info", b"XX decoy".to_vec()), e("a/b.info", info("second.c", 2)), e("c.info", info("ctl.c", 9))])),
         ("repeated-raw-name", mk(vec![e("d.info", info("first.c", 1)), e("d.info", info("second.c", 2))])),
         ("zip-directory-entry-profraw", mk(vec![("junk.profraw/".to_string(), vec![], Some(0o40755)), e("ok.info", info("ok.c", 1))])),
         // review item 19 (tools/review_probes2/prod-conf/p4_misc.py a, a2): a name the file system cannot
@@ -360,7 +354,6 @@ fn fixed() -> Vec<(&'static str, RCase)> {
     ]
 }
 
-const F_SAME_CANON: &str = "C17-zip-same-canonical-name-reads-other-entry";
 /// an artifact that must be extracted / linked below the temp dir whose destination the file
 /// system cannot hold: `<file stem>_<n>.<ext>` longer than NAME_MAX, or a directory component that is
 const F_TOO_LONG: &str = "C17-name-too-long-aborts-run";
@@ -410,14 +403,13 @@ fn finish(rep: &mut Report, done: Vec<Done>, tag: &str) {
             );
         } else if d.obs != d.want {
             oracle_failed = true;
-            let known = d.shared && list_ans != first_ans && tie_ok;
             rep.fail(
                 "oracle",
-                if known { Some(F_SAME_CANON) } else { None },
+                None,
                 format!(
                     "raw zip: producer() delivers [{}], the first listable entry per canonical name means [{}]{}",
                     d.obs, d.want,
-                    if known { " — two entries share a canonical spelling and zip_index reads another one than explore listed (producer.rs zip_index: index_for_name first, then a scan that does not skip directory entries)" } else { "" }
+                    if d.shared { " — two entries share a canonical spelling (was finding C17-zip-same-canonical-name-reads-other-entry, repaired by 99c0f28)" } else { "" }
                 ),
                 case.clone(),
             );
@@ -427,14 +419,14 @@ fn finish(rep: &mut Report, done: Vec<Done>, tag: &str) {
                 rep.fail("oracle", None, format!("packaging: the raw zip delivers [{}], the same files as a directory [{}]", d.obs, o), case.clone());
             }
         }
-        if !tie_ok {
+        if !tie_ok && !oracle_failed {
             rep.disagreements_checked += 1;
-            if !oracle_failed {
+            {
                 rep.fail("disagreement", None, format!("raw zip: impl [{}] model [{}]", d.impl_out, m_items), case.clone());
             }
         }
         if list_ans != first_ans {
-            rep.count("rawzip.model.listed_differs_from_first");
+            rep.fail("disagreement", None, format!("Producer.zipListed [{}] differs from the reference zipFirst [{}]", list_ans, first_ans), case.clone());
         }
     }
 }
@@ -490,6 +482,19 @@ pub fn run(rep: &mut Report, pools: &Pools) {
     let mut rng = Rng::new(rep.seed ^ 0xC17_2A);
     let mut done = vec![];
     let mut idx = 0;
+    // corpus first: minimised past failures
+    let mut corpus: Vec<PathBuf> = std::fs::read_dir("/verif/corpus/C17").map(|d| d.flatten().map(|e| e.path()).collect()).unwrap_or_default();
+    corpus.sort();
+    for p in corpus {
+        if let Some(v) = std::fs::read_to_string(&p).ok().and_then(|t| serde_json::from_str::<Value>(&t).ok()) {
+            if v["op"] == "rawzip" {
+                rep.count("rawzip.corpus_case");
+                rep.case(&format!("rawzip corpus {}", p.display()), true);
+                done.push(eval(rep, rcase_from_json(&v), idx));
+                idx += 1;
+            }
+        }
+    }
     for (name, c) in fixed() {
         rep.count(&format!("rawzip.witness.{}", name));
         rep.case(&format!("rawzip {}", name), true);
